@@ -495,6 +495,13 @@ impl<'a> Model<'a> {
                 }
                 Ok(2)
             }
+            Conduit::Native2(k) if crate::simlang::NATIVE2[k as usize].0 == "C_RESIZEGL" => {
+                let r1 = self.invoke(func, a, line, c.conduit)?;
+                self.gl.push(r1);
+                let r2 = self.invoke(func, a, line, c.conduit)?;
+                self.gl.push(r2);
+                Ok(0)
+            }
             Conduit::Chain(..) | Conduit::Native2(_) => {
                 self.invoke(func, a, line, c.conduit)?;
                 self.invoke(func, a.wrapping_add(1), line, c.conduit)?;
